@@ -319,25 +319,35 @@ def run(facts, chk, tier, only=None):
             chk.ok('C20.cutoff', 'C20.cutoff:find_cutoff', CV + 'find_cutoff', 'least c >= 1 below the cap with a(c) - b(c) < 0, else the cap: %d (pattern, cap) cases' % n, evals=n)
 
     def label():
+        from ..cond import edge_conds, eval_formula, eval_expr, Unevaluable
         ph = facts.fn(CH + '::plot_hist')
         eb = ExprBuilder(ph, through_vars=False)
-        sw = [b.idx for b in ph.blocks if b.idx in ph.live_blocks() and b.term.k == 'switch' and show(eb.operand(b.term.discr)).startswith('((idx + 1) <')]
-        if len(sw) != 1:
-            raise AnchorLost('plot_hist: label comparison')
-        t = ph.blocks[sw[0]].term
-        e = eb.operand(t.discr)
         ci = facts.field_index(CH, 'cutoff')
-        ok_rhs = any(x[0] == 'field' and x[2] == ci for x in subexprs(e[3]))
-        # true edge assigns "Error"
-        te = t.otherwise
-        fe = next(tg for v, tg in t.targets if v == 0)
 
         def lab(bb):
             for s in ph.blocks[bb].stmts:
                 if s.k == 'assign' and s.rv.k == 'use' and s.rv.ops[0].j.get('str'):
                     return s.rv.ops[0].j['str']
             return None
-        return ok_rhs and lab(te) == 'Error' and lab(fe) == 'Coverage', '(idx + 1) < cutoff -> %r else %r' % (lab(te), lab(fe))
+        sw = [b.idx for b in ph.blocks if b.idx in ph.live_blocks() and b.term.k == 'switch' and
+              {lab(x) for x in set(b.term.succs())} == {'Error', 'Coverage'}]
+        if len(sw) != 1:
+            raise AnchorLost('plot_hist: label decision not found')
+        bad = []
+        for s, c in edge_conds(ph, eb, sw[0]):
+            for idx in range(0, 6):
+                for cut in range(0, 8):
+                    def leaf(x, idx=idx, cut=cut):
+                        if x[0] == 'var' and x[2] == 'idx':
+                            return idx
+                        if x[0] == 'field' and x[2] == ci:
+                            return cut
+                        raise Unevaluable()
+                    if bool(eval_formula(c, lambda ex: eval_expr(ex, leaf))):
+                        want = 'Error' if (idx + 1) < cut else 'Coverage'
+                        if lab(s) != want:
+                            bad.append((idx, cut, lab(s), want))
+        return not bad, 'row idx (multiplicity idx+1) labelled Error iff idx+1 < cutoff (48 grid points): %s' % (bad[:2],)
     r = chk.guard('C20.cutoff', 'C20.cutoff:label', label)
     if r is not None:
         ok, why = r
